@@ -151,6 +151,8 @@ def _handshake(ctx, proto, mutual, defect, seed, secrets):
             dr = ep.do("draws")
             if dr[0] == "draws":
                 for i, x in enumerate(dr[1]):
+                    if proto == "tls13" and i == 0:
+                        continue      # the TLS 1.3 hello random is a 32-byte draw and public
                     if x is not None and (len(x) == 32 or len(x) >= 40):
                         secrets["%s entropy draw #%d (%d bytes)" % (nm, i, len(x))] = x
                         if len(x) == 32:
